@@ -301,4 +301,6 @@ class Parser(object):
         # type: (str) -> ProgramNode
         """ Parses the source text into a program structure """
 
+        self.lexer.lineno = 1  # the lexer (and its line counter) is reused between calls
+
         return self.parser.parse(source, lexer=self.lexer, tracking=True)
